@@ -7,7 +7,7 @@ from fractions import Fraction as Fr
 from .. import common
 from ..runner import Corr, Failure
 
-LEAN_MODULES = ['SvgVerif.Props.C07', 'SvgVerif.Props.C07Mono']
+LEAN_MODULES = ['SvgVerif.Props.C07', 'SvgVerif.Props.C07Mono', 'SvgVerif.Props.C07Path']
 ASSUMPTIONS = [
     'curve.length(t1=t) is an input of the model (its correctness is C06); exact-arithmetic theorems assume nothing about it, the tolerance-exit theorem holds for any length function',
     'the grid totality theorem bounds the iterations by the number of grid points between the ends; that IEEE halving reaches adjacent doubles within ~1100 < maxits=10000 iterations is exercised bit-exactly by the stall correspondence stream, not proved',
